@@ -777,346 +777,487 @@ pub fn p564() {
     let _ = a.transpose();
 }
 
+pub fn p565() {
+    let a: re::math::mat::Mat4x4<re::math::mat::RealToReal<3, crate::UserTag, crate::UserTag>> = mk();
+    let b: re::math::mat::Mat4x4<re::math::mat::RealToReal<3, crate::UserTag, crate::UserTag>> = mk();
+    let _ = a.compose(&b);
+}
+
+pub fn p566() {
+    let a: re::math::mat::Mat4x4<re::math::mat::RealToReal<3, crate::UserTag, crate::UserTag>> = mk();
+    let b: re::math::mat::Mat4x4<re::math::mat::RealToReal<3, crate::UserTag, crate::UserTag>> = mk();
+    let _ = a.then(&b);
+}
+
+pub fn p568() {
+    let a: re::math::mat::Mat4x4<re::math::mat::RealToReal<3, crate::UserTag, crate::UserTag>> = mk();
+    let b: re::math::mat::Mat4x4<re::math::mat::RealToReal<3, crate::UserTag, re::render::World>> = mk();
+    let _ = a.then(&b);
+}
+
 pub fn p570() {
+    let a: re::math::mat::Mat4x4<re::math::mat::RealToReal<3, crate::UserTag, crate::UserTag>> = mk();
+    let b: re::math::mat::Mat4x4<re::math::mat::RealToReal<3, re::render::World, crate::UserTag>> = mk();
+    let _ = a.compose(&b);
+}
+
+pub fn p571() {
+    let a: re::math::mat::Mat4x4<re::math::mat::RealToReal<3, crate::UserTag, crate::UserTag>> = mk();
+    let b: re::math::point::Point3<crate::UserTag> = mk();
+    let _ = a.apply_pt(&b);
+}
+
+pub fn p573() {
+    let a: re::math::mat::Mat4x4<re::math::mat::RealToReal<3, crate::UserTag, crate::UserTag>> = mk();
+    let b: re::math::vec::Vec3<crate::UserTag> = mk();
+    let _ = a.apply(&b);
+}
+
+pub fn p575() {
+    let a: re::math::mat::Mat4x4<re::math::mat::RealToReal<3, crate::UserTag, crate::UserTag>> = mk();
+    let _ = a.determinant();
+}
+
+pub fn p576() {
+    let a: re::math::mat::Mat4x4<re::math::mat::RealToReal<3, crate::UserTag, crate::UserTag>> = mk();
+    let _ = a.inverse();
+}
+
+pub fn p577() {
+    let a: re::math::mat::Mat4x4<re::math::mat::RealToReal<3, crate::UserTag, crate::UserTag>> = mk();
+    let _ = a.transpose();
+}
+
+pub fn p579() {
+    let a: re::math::mat::Mat4x4<re::math::mat::RealToReal<3, crate::UserTag, re::render::World>> = mk();
+    let b: re::math::mat::Mat4x4<re::math::mat::RealToReal<3, crate::UserTag, crate::UserTag>> = mk();
+    let _ = a.compose(&b);
+}
+
+pub fn p582() {
+    let a: re::math::mat::Mat4x4<re::math::mat::RealToReal<3, crate::UserTag, re::render::World>> = mk();
+    let b: re::math::mat::Mat4x4<re::math::mat::RealToReal<3, re::render::World, crate::UserTag>> = mk();
+    let _ = a.compose(&b);
+}
+
+pub fn p583() {
+    let a: re::math::mat::Mat4x4<re::math::mat::RealToReal<3, crate::UserTag, re::render::World>> = mk();
+    let b: re::math::mat::Mat4x4<re::math::mat::RealToReal<3, re::render::World, crate::UserTag>> = mk();
+    let _ = a.then(&b);
+}
+
+pub fn p584() {
+    let a: re::math::mat::Mat4x4<re::math::mat::RealToReal<3, crate::UserTag, re::render::World>> = mk();
+    let b: re::math::point::Point3<crate::UserTag> = mk();
+    let _ = a.apply_pt(&b);
+}
+
+pub fn p586() {
+    let a: re::math::mat::Mat4x4<re::math::mat::RealToReal<3, crate::UserTag, re::render::World>> = mk();
+    let b: re::math::vec::Vec3<crate::UserTag> = mk();
+    let _ = a.apply(&b);
+}
+
+pub fn p588() {
+    let a: re::math::mat::Mat4x4<re::math::mat::RealToReal<3, crate::UserTag, re::render::World>> = mk();
+    let _ = a.determinant();
+}
+
+pub fn p589() {
+    let a: re::math::mat::Mat4x4<re::math::mat::RealToReal<3, crate::UserTag, re::render::World>> = mk();
+    let _ = a.inverse();
+}
+
+pub fn p590() {
+    let a: re::math::mat::Mat4x4<re::math::mat::RealToReal<3, crate::UserTag, re::render::World>> = mk();
+    let _ = a.transpose();
+}
+
+pub fn p596() {
     let a: re::math::mat::Mat4x4<re::math::mat::RealToReal<3, re::render::World, re::render::Model>> = mk();
     let b: re::math::mat::Mat4x4<re::math::mat::RealToReal<3, re::render::Model, re::render::Model>> = mk();
     let _ = a.then(&b);
 }
 
-pub fn p572() {
+pub fn p598() {
     let a: re::math::mat::Mat4x4<re::math::mat::RealToReal<3, re::render::World, re::render::Model>> = mk();
     let b: re::math::mat::Mat4x4<re::math::mat::RealToReal<3, re::render::Model, ()>> = mk();
     let _ = a.then(&b);
 }
 
-pub fn p573() {
+pub fn p599() {
     let a: re::math::mat::Mat4x4<re::math::mat::RealToReal<3, re::render::World, re::render::Model>> = mk();
     let b: re::math::mat::Mat4x4<re::math::mat::RealToReal<3, re::render::Model, re::render::World>> = mk();
     let _r: re::math::mat::Mat4x4<re::math::mat::RealToReal<3, re::render::Model, re::render::Model>> = a.compose(&b);
 }
 
-pub fn p577() {
+pub fn p603() {
     let a: re::math::mat::Mat4x4<re::math::mat::RealToReal<3, re::render::World, re::render::Model>> = mk();
     let b: re::math::mat::Mat4x4<re::math::mat::RealToReal<3, re::render::Model, re::render::World>> = mk();
     let _ = a.compose(&b);
 }
 
-pub fn p578() {
+pub fn p604() {
     let a: re::math::mat::Mat4x4<re::math::mat::RealToReal<3, re::render::World, re::render::Model>> = mk();
     let b: re::math::mat::Mat4x4<re::math::mat::RealToReal<3, re::render::Model, re::render::World>> = mk();
     let _ = a.then(&b);
 }
 
-pub fn p584() {
+pub fn p610() {
     let a: re::math::mat::Mat4x4<re::math::mat::RealToReal<3, re::render::World, re::render::Model>> = mk();
     let b: re::math::mat::Mat4x4<re::math::mat::RealToReal<3, (), re::render::World>> = mk();
     let _ = a.compose(&b);
 }
 
-pub fn p595() {
+pub fn p621() {
     let a: re::math::mat::Mat4x4<re::math::mat::RealToReal<3, re::render::World, re::render::Model>> = mk();
     let b: re::math::mat::Mat4x4<re::math::mat::RealToReal<3, re::render::World, re::render::World>> = mk();
     let _r: re::math::mat::Mat4x4<re::math::mat::RealToReal<3, re::render::World, re::render::Model>> = a.compose(&b);
 }
 
-pub fn p598() {
+pub fn p624() {
     let a: re::math::mat::Mat4x4<re::math::mat::RealToReal<3, re::render::World, re::render::Model>> = mk();
     let b: re::math::mat::Mat4x4<re::math::mat::RealToReal<3, re::render::World, re::render::World>> = mk();
     let _ = a.compose(&b);
 }
 
-pub fn p600() {
+pub fn p626() {
     let a: re::math::mat::Mat4x4<re::math::mat::RealToReal<3, re::render::World, re::render::Model>> = mk();
     let b: re::math::mat::Mat4x4<re::math::mat::RealToProj<re::render::Model>> = mk();
     let _ = a.then(&b);
 }
 
-pub fn p616() {
+pub fn p642() {
     let a: re::math::mat::Mat4x4<re::math::mat::RealToReal<3, re::render::World, re::render::Model>> = mk();
     let b: re::math::point::Point3<re::render::World> = mk();
     let _r: re::math::point::Point3<re::render::Model> = a.apply_pt(&b);
 }
 
-pub fn p619() {
+pub fn p645() {
     let a: re::math::mat::Mat4x4<re::math::mat::RealToReal<3, re::render::World, re::render::Model>> = mk();
     let b: re::math::point::Point3<re::render::World> = mk();
     let _ = a.apply_pt(&b);
 }
 
-pub fn p631() {
+pub fn p657() {
     let a: re::math::mat::Mat4x4<re::math::mat::RealToReal<3, re::render::World, re::render::Model>> = mk();
     let b: re::math::vec::Vec3<re::render::World> = mk();
     let _r: re::math::vec::Vec3<re::render::Model> = a.apply(&b);
 }
 
-pub fn p634() {
+pub fn p660() {
     let a: re::math::mat::Mat4x4<re::math::mat::RealToReal<3, re::render::World, re::render::Model>> = mk();
     let b: re::math::vec::Vec3<re::render::World> = mk();
     let _ = a.apply(&b);
 }
 
-pub fn p635() {
+pub fn p661() {
     let a: re::math::mat::Mat4x4<re::math::mat::RealToReal<3, re::render::World, re::render::Model>> = mk();
     let _ = a.determinant();
 }
 
-pub fn p636() {
+pub fn p662() {
     let a: re::math::mat::Mat4x4<re::math::mat::RealToReal<3, re::render::World, re::render::Model>> = mk();
     let _ = a.inverse();
 }
 
-pub fn p637() {
+pub fn p663() {
     let a: re::math::mat::Mat4x4<re::math::mat::RealToReal<3, re::render::World, re::render::Model>> = mk();
     let _ = a.transpose();
 }
 
-pub fn p643() {
+pub fn p669() {
     let a: re::math::mat::Mat4x4<re::math::mat::RealToReal<3, re::render::World, ()>> = mk();
     let b: re::math::mat::Mat4x4<re::math::mat::RealToReal<3, re::render::Model, re::render::World>> = mk();
     let _ = a.compose(&b);
 }
 
-pub fn p645() {
+pub fn p671() {
     let a: re::math::mat::Mat4x4<re::math::mat::RealToReal<3, re::render::World, ()>> = mk();
     let b: re::math::mat::Mat4x4<re::math::mat::RealToReal<3, (), re::render::Model>> = mk();
     let _ = a.then(&b);
 }
 
-pub fn p647() {
+pub fn p673() {
     let a: re::math::mat::Mat4x4<re::math::mat::RealToReal<3, re::render::World, ()>> = mk();
     let b: re::math::mat::Mat4x4<re::math::mat::RealToReal<3, (), ()>> = mk();
-    let _ = a.then(&b);
-}
-
-pub fn p648() {
-    let a: re::math::mat::Mat4x4<re::math::mat::RealToReal<3, re::render::World, ()>> = mk();
-    let b: re::math::mat::Mat4x4<re::math::mat::RealToReal<3, (), re::render::World>> = mk();
-    let _ = a.compose(&b);
-}
-
-pub fn p649() {
-    let a: re::math::mat::Mat4x4<re::math::mat::RealToReal<3, re::render::World, ()>> = mk();
-    let b: re::math::mat::Mat4x4<re::math::mat::RealToReal<3, (), re::render::World>> = mk();
-    let _ = a.then(&b);
-}
-
-pub fn p655() {
-    let a: re::math::mat::Mat4x4<re::math::mat::RealToReal<3, re::render::World, ()>> = mk();
-    let b: re::math::mat::Mat4x4<re::math::mat::RealToReal<3, re::render::World, re::render::World>> = mk();
-    let _ = a.compose(&b);
-}
-
-pub fn p659() {
-    let a: re::math::mat::Mat4x4<re::math::mat::RealToReal<3, re::render::World, ()>> = mk();
-    let b: re::math::mat::Mat4x4<re::math::mat::RealToProj<()>> = mk();
     let _ = a.then(&b);
 }
 
 pub fn p674() {
     let a: re::math::mat::Mat4x4<re::math::mat::RealToReal<3, re::render::World, ()>> = mk();
+    let b: re::math::mat::Mat4x4<re::math::mat::RealToReal<3, (), re::render::World>> = mk();
+    let _ = a.compose(&b);
+}
+
+pub fn p675() {
+    let a: re::math::mat::Mat4x4<re::math::mat::RealToReal<3, re::render::World, ()>> = mk();
+    let b: re::math::mat::Mat4x4<re::math::mat::RealToReal<3, (), re::render::World>> = mk();
+    let _ = a.then(&b);
+}
+
+pub fn p681() {
+    let a: re::math::mat::Mat4x4<re::math::mat::RealToReal<3, re::render::World, ()>> = mk();
+    let b: re::math::mat::Mat4x4<re::math::mat::RealToReal<3, re::render::World, re::render::World>> = mk();
+    let _ = a.compose(&b);
+}
+
+pub fn p685() {
+    let a: re::math::mat::Mat4x4<re::math::mat::RealToReal<3, re::render::World, ()>> = mk();
+    let b: re::math::mat::Mat4x4<re::math::mat::RealToProj<()>> = mk();
+    let _ = a.then(&b);
+}
+
+pub fn p700() {
+    let a: re::math::mat::Mat4x4<re::math::mat::RealToReal<3, re::render::World, ()>> = mk();
     let b: re::math::point::Point3<re::render::World> = mk();
     let _r: re::math::point::Point3<()> = a.apply_pt(&b);
 }
 
-pub fn p676() {
+pub fn p702() {
     let a: re::math::mat::Mat4x4<re::math::mat::RealToReal<3, re::render::World, ()>> = mk();
     let b: re::math::point::Point3<re::render::World> = mk();
     let _ = a.apply_pt(&b);
 }
 
-pub fn p689() {
+pub fn p715() {
     let a: re::math::mat::Mat4x4<re::math::mat::RealToReal<3, re::render::World, ()>> = mk();
     let b: re::math::vec::Vec3<re::render::World> = mk();
     let _r: re::math::vec::Vec3<()> = a.apply(&b);
 }
 
-pub fn p691() {
+pub fn p717() {
     let a: re::math::mat::Mat4x4<re::math::mat::RealToReal<3, re::render::World, ()>> = mk();
     let b: re::math::vec::Vec3<re::render::World> = mk();
     let _ = a.apply(&b);
 }
 
-pub fn p692() {
+pub fn p718() {
     let a: re::math::mat::Mat4x4<re::math::mat::RealToReal<3, re::render::World, ()>> = mk();
     let _ = a.determinant();
 }
 
-pub fn p693() {
+pub fn p719() {
     let a: re::math::mat::Mat4x4<re::math::mat::RealToReal<3, re::render::World, ()>> = mk();
     let _ = a.inverse();
 }
 
-pub fn p694() {
+pub fn p720() {
     let a: re::math::mat::Mat4x4<re::math::mat::RealToReal<3, re::render::World, ()>> = mk();
     let _ = a.transpose();
 }
 
-pub fn p704() {
+pub fn p722() {
+    let a: re::math::mat::Mat4x4<re::math::mat::RealToReal<3, re::render::World, crate::UserTag>> = mk();
+    let b: re::math::mat::Mat4x4<re::math::mat::RealToReal<3, crate::UserTag, crate::UserTag>> = mk();
+    let _ = a.then(&b);
+}
+
+pub fn p723() {
+    let a: re::math::mat::Mat4x4<re::math::mat::RealToReal<3, re::render::World, crate::UserTag>> = mk();
+    let b: re::math::mat::Mat4x4<re::math::mat::RealToReal<3, crate::UserTag, re::render::World>> = mk();
+    let _ = a.compose(&b);
+}
+
+pub fn p724() {
+    let a: re::math::mat::Mat4x4<re::math::mat::RealToReal<3, re::render::World, crate::UserTag>> = mk();
+    let b: re::math::mat::Mat4x4<re::math::mat::RealToReal<3, crate::UserTag, re::render::World>> = mk();
+    let _ = a.then(&b);
+}
+
+pub fn p728() {
+    let a: re::math::mat::Mat4x4<re::math::mat::RealToReal<3, re::render::World, crate::UserTag>> = mk();
+    let b: re::math::point::Point3<re::render::World> = mk();
+    let _ = a.apply_pt(&b);
+}
+
+pub fn p730() {
+    let a: re::math::mat::Mat4x4<re::math::mat::RealToReal<3, re::render::World, crate::UserTag>> = mk();
+    let b: re::math::vec::Vec3<re::render::World> = mk();
+    let _ = a.apply(&b);
+}
+
+pub fn p731() {
+    let a: re::math::mat::Mat4x4<re::math::mat::RealToReal<3, re::render::World, crate::UserTag>> = mk();
+    let _ = a.determinant();
+}
+
+pub fn p732() {
+    let a: re::math::mat::Mat4x4<re::math::mat::RealToReal<3, re::render::World, crate::UserTag>> = mk();
+    let _ = a.inverse();
+}
+
+pub fn p733() {
+    let a: re::math::mat::Mat4x4<re::math::mat::RealToReal<3, re::render::World, crate::UserTag>> = mk();
+    let _ = a.transpose();
+}
+
+pub fn p743() {
     let a: re::math::mat::Mat4x4<re::math::mat::RealToReal<3, re::render::World, re::render::World>> = mk();
     let b: re::math::mat::Mat4x4<re::math::mat::RealToReal<3, re::render::Model, re::render::World>> = mk();
     let _r: re::math::mat::Mat4x4<re::math::mat::RealToReal<3, re::render::Model, re::render::World>> = a.compose(&b);
 }
 
-pub fn p708() {
+pub fn p747() {
     let a: re::math::mat::Mat4x4<re::math::mat::RealToReal<3, re::render::World, re::render::World>> = mk();
     let b: re::math::mat::Mat4x4<re::math::mat::RealToReal<3, re::render::Model, re::render::World>> = mk();
     let _ = a.compose(&b);
 }
 
-pub fn p714() {
+pub fn p753() {
     let a: re::math::mat::Mat4x4<re::math::mat::RealToReal<3, re::render::World, re::render::World>> = mk();
     let b: re::math::mat::Mat4x4<re::math::mat::RealToReal<3, (), re::render::World>> = mk();
     let _ = a.compose(&b);
 }
 
-pub fn p720() {
+pub fn p759() {
     let a: re::math::mat::Mat4x4<re::math::mat::RealToReal<3, re::render::World, re::render::World>> = mk();
     let b: re::math::mat::Mat4x4<re::math::mat::RealToReal<3, re::render::World, re::render::Model>> = mk();
     let _ = a.then(&b);
 }
 
-pub fn p722() {
+pub fn p761() {
     let a: re::math::mat::Mat4x4<re::math::mat::RealToReal<3, re::render::World, re::render::World>> = mk();
     let b: re::math::mat::Mat4x4<re::math::mat::RealToReal<3, re::render::World, ()>> = mk();
     let _ = a.then(&b);
 }
 
-pub fn p726() {
+pub fn p765() {
     let a: re::math::mat::Mat4x4<re::math::mat::RealToReal<3, re::render::World, re::render::World>> = mk();
     let b: re::math::mat::Mat4x4<re::math::mat::RealToReal<3, re::render::World, re::render::World>> = mk();
     let _r: re::math::mat::Mat4x4<re::math::mat::RealToReal<3, re::render::World, re::render::World>> = a.compose(&b);
 }
 
-pub fn p727() {
+pub fn p766() {
     let a: re::math::mat::Mat4x4<re::math::mat::RealToReal<3, re::render::World, re::render::World>> = mk();
     let b: re::math::mat::Mat4x4<re::math::mat::RealToReal<3, re::render::World, re::render::World>> = mk();
     let _ = a.compose(&b);
 }
 
-pub fn p728() {
+pub fn p767() {
     let a: re::math::mat::Mat4x4<re::math::mat::RealToReal<3, re::render::World, re::render::World>> = mk();
     let b: re::math::mat::Mat4x4<re::math::mat::RealToReal<3, re::render::World, re::render::World>> = mk();
     let _ = a.then(&b);
 }
 
-pub fn p734() {
+pub fn p773() {
     let a: re::math::mat::Mat4x4<re::math::mat::RealToReal<3, re::render::World, re::render::World>> = mk();
     let b: re::math::mat::Mat4x4<re::math::mat::RealToProj<re::render::World>> = mk();
     let _ = a.then(&b);
 }
 
-pub fn p748() {
+pub fn p787() {
     let a: re::math::mat::Mat4x4<re::math::mat::RealToReal<3, re::render::World, re::render::World>> = mk();
     let b: re::math::point::Point3<re::render::World> = mk();
     let _r: re::math::point::Point3<re::render::World> = a.apply_pt(&b);
 }
 
-pub fn p749() {
+pub fn p788() {
     let a: re::math::mat::Mat4x4<re::math::mat::RealToReal<3, re::render::World, re::render::World>> = mk();
     let b: re::math::point::Point3<re::render::World> = mk();
     let _ = a.apply_pt(&b);
 }
 
-pub fn p763() {
+pub fn p802() {
     let a: re::math::mat::Mat4x4<re::math::mat::RealToReal<3, re::render::World, re::render::World>> = mk();
     let b: re::math::vec::Vec3<re::render::World> = mk();
     let _r: re::math::vec::Vec3<re::render::World> = a.apply(&b);
 }
 
-pub fn p764() {
+pub fn p803() {
     let a: re::math::mat::Mat4x4<re::math::mat::RealToReal<3, re::render::World, re::render::World>> = mk();
     let b: re::math::vec::Vec3<re::render::World> = mk();
     let _ = a.apply(&b);
 }
 
-pub fn p765() {
+pub fn p804() {
     let a: re::math::mat::Mat4x4<re::math::mat::RealToReal<3, re::render::World, re::render::World>> = mk();
     let _ = a.determinant();
 }
 
-pub fn p766() {
+pub fn p805() {
     let a: re::math::mat::Mat4x4<re::math::mat::RealToReal<3, re::render::World, re::render::World>> = mk();
     let _ = a.inverse();
 }
 
-pub fn p767() {
+pub fn p806() {
     let a: re::math::mat::Mat4x4<re::math::mat::RealToReal<3, re::render::World, re::render::World>> = mk();
     let _ = a.transpose();
 }
 
-pub fn p769() {
+pub fn p808() {
     let a: re::math::mat::Mat4x4<re::math::mat::RealToProj<re::render::Model>> = mk();
     let b: re::math::mat::Mat4x4<re::math::mat::RealToReal<3, re::render::Model, re::render::Model>> = mk();
     let _ = a.compose(&b);
 }
 
-pub fn p775() {
+pub fn p814() {
     let a: re::math::mat::Mat4x4<re::math::mat::RealToProj<re::render::Model>> = mk();
     let b: re::math::mat::Mat4x4<re::math::mat::RealToReal<3, (), re::render::Model>> = mk();
     let _ = a.compose(&b);
 }
 
-pub fn p781() {
+pub fn p820() {
     let a: re::math::mat::Mat4x4<re::math::mat::RealToProj<re::render::Model>> = mk();
     let b: re::math::mat::Mat4x4<re::math::mat::RealToReal<3, re::render::World, re::render::Model>> = mk();
     let _ = a.compose(&b);
 }
 
-pub fn p786() {
+pub fn p825() {
     let a: re::math::mat::Mat4x4<re::math::mat::RealToProj<re::render::Model>> = mk();
     let b: re::math::point::Point3<re::render::Model> = mk();
     let _ = a.apply(&b);
 }
 
-pub fn p801() {
+pub fn p840() {
     let a: re::math::mat::Mat4x4<re::math::mat::RealToProj<()>> = mk();
     let b: re::math::mat::Mat4x4<re::math::mat::RealToReal<3, re::render::Model, ()>> = mk();
     let _ = a.compose(&b);
 }
 
-pub fn p807() {
+pub fn p846() {
     let a: re::math::mat::Mat4x4<re::math::mat::RealToProj<()>> = mk();
     let b: re::math::mat::Mat4x4<re::math::mat::RealToReal<3, (), ()>> = mk();
     let _ = a.compose(&b);
 }
 
-pub fn p813() {
+pub fn p852() {
     let a: re::math::mat::Mat4x4<re::math::mat::RealToProj<()>> = mk();
     let b: re::math::mat::Mat4x4<re::math::mat::RealToReal<3, re::render::World, ()>> = mk();
     let _ = a.compose(&b);
 }
 
-pub fn p818() {
+pub fn p857() {
     let a: re::math::mat::Mat4x4<re::math::mat::RealToProj<()>> = mk();
     let b: re::math::point::Point3<()> = mk();
     let _ = a.apply(&b);
 }
 
-pub fn p833() {
+pub fn p872() {
     let a: re::math::mat::Mat4x4<re::math::mat::RealToProj<re::render::World>> = mk();
     let b: re::math::mat::Mat4x4<re::math::mat::RealToReal<3, re::render::Model, re::render::World>> = mk();
     let _ = a.compose(&b);
 }
 
-pub fn p839() {
+pub fn p878() {
     let a: re::math::mat::Mat4x4<re::math::mat::RealToProj<re::render::World>> = mk();
     let b: re::math::mat::Mat4x4<re::math::mat::RealToReal<3, (), re::render::World>> = mk();
     let _ = a.compose(&b);
 }
 
-pub fn p845() {
+pub fn p884() {
     let a: re::math::mat::Mat4x4<re::math::mat::RealToProj<re::render::World>> = mk();
     let b: re::math::mat::Mat4x4<re::math::mat::RealToReal<3, re::render::World, re::render::World>> = mk();
     let _ = a.compose(&b);
 }
 
-pub fn p850() {
+pub fn p889() {
     let a: re::math::mat::Mat4x4<re::math::mat::RealToProj<re::render::World>> = mk();
     let b: re::math::point::Point3<re::render::World> = mk();
     let _ = a.apply(&b);
 }
 
-pub fn p864() {
+pub fn p903() {
     use re::geom::{Tri, Vertex};
     let vs = |_: Vertex<re::math::point::Point3<re::render::Model>, ()>, _: ()| -> Vertex<re::math::vec::ProjVec4, f32> { mk() };
     let fs = |_: re::render::raster::Frag<f32>| -> Option<re::math::color::Color4> { mk() };
@@ -1127,61 +1268,61 @@ pub fn p864() {
     re::render::render(&tris, &verts, &sh, (), mk(), &mut target, &mk::<re::render::Context>());
 }
 
-pub fn p866() {
+pub fn p905() {
     let a: re::math::point::Point2<re::render::Model> = mk();
     let b: re::math::point::Point2<re::render::Model> = mk();
     let _ = re::math::Lerp::lerp(&a, &b, 0.5);
 }
 
-pub fn p867() {
+pub fn p906() {
     let a: re::math::point::Point2<re::render::Model> = mk();
     let b: re::math::point::Point2<re::render::Model> = mk();
     let _ = a - b;
 }
 
-pub fn p883() {
+pub fn p922() {
     let a: re::math::point::Point2<re::render::Model> = mk();
     let b: re::math::vec::Vec2<re::render::Model> = mk();
     let _ = a + b;
 }
 
-pub fn p893() {
+pub fn p932() {
     let a: re::math::point::Point2<()> = mk();
     let b: re::math::point::Point2<()> = mk();
     let _ = re::math::Lerp::lerp(&a, &b, 0.5);
 }
 
-pub fn p894() {
+pub fn p933() {
     let a: re::math::point::Point2<()> = mk();
     let b: re::math::point::Point2<()> = mk();
     let _ = a - b;
 }
 
-pub fn p908() {
+pub fn p947() {
     let a: re::math::point::Point2<()> = mk();
     let b: re::math::vec::Vec2<()> = mk();
     let _ = a + b;
 }
 
-pub fn p920() {
+pub fn p959() {
     let a: re::math::point::Point2<re::render::World> = mk();
     let b: re::math::point::Point2<re::render::World> = mk();
     let _ = re::math::Lerp::lerp(&a, &b, 0.5);
 }
 
-pub fn p921() {
+pub fn p960() {
     let a: re::math::point::Point2<re::render::World> = mk();
     let b: re::math::point::Point2<re::render::World> = mk();
     let _ = a - b;
 }
 
-pub fn p933() {
+pub fn p972() {
     let a: re::math::point::Point2<re::render::World> = mk();
     let b: re::math::vec::Vec2<re::render::World> = mk();
     let _ = a + b;
 }
 
-pub fn p947() {
+pub fn p986() {
     let a: re::math::point::Point3<re::render::Model> = mk();
     let b: re::math::point::Point3<re::render::Model> = mk();
     let c: re::math::point::Point3<re::render::Model> = mk();
@@ -1189,31 +1330,31 @@ pub fn p947() {
     let _ = re::math::space::Affine::add(&c, &d);
 }
 
-pub fn p952() {
+pub fn p991() {
     let a: re::math::point::Point3<re::render::Model> = mk();
     let b: re::math::point::Point3<re::render::Model> = mk();
     let _r: re::math::vec::Vec3<re::render::Model> = a - b;
 }
 
-pub fn p956() {
+pub fn p995() {
     let a: re::math::point::Point3<re::render::Model> = mk();
     let b: re::math::point::Point3<re::render::Model> = mk();
     let _ = re::math::Lerp::lerp(&a, &b, 0.5);
 }
 
-pub fn p957() {
+pub fn p996() {
     let a: re::math::point::Point3<re::render::Model> = mk();
     let b: re::math::point::Point3<re::render::Model> = mk();
     let _ = a - b;
 }
 
-pub fn p985() {
+pub fn p1024() {
     let a: re::math::point::Point3<re::render::Model> = mk();
     let b: re::math::vec::Vec3<re::render::Model> = mk();
     let _ = a + b;
 }
 
-pub fn p1013() {
+pub fn p1052() {
     let a: re::math::point::Point3<()> = mk();
     let b: re::math::point::Point3<()> = mk();
     let c: re::math::point::Point3<()> = mk();
@@ -1221,31 +1362,31 @@ pub fn p1013() {
     let _ = re::math::space::Affine::add(&c, &d);
 }
 
-pub fn p1017() {
+pub fn p1056() {
     let a: re::math::point::Point3<()> = mk();
     let b: re::math::point::Point3<()> = mk();
     let _r: re::math::vec::Vec3<()> = a - b;
 }
 
-pub fn p1020() {
+pub fn p1059() {
     let a: re::math::point::Point3<()> = mk();
     let b: re::math::point::Point3<()> = mk();
     let _ = re::math::Lerp::lerp(&a, &b, 0.5);
 }
 
-pub fn p1021() {
+pub fn p1060() {
     let a: re::math::point::Point3<()> = mk();
     let b: re::math::point::Point3<()> = mk();
     let _ = a - b;
 }
 
-pub fn p1038() {
+pub fn p1077() {
     let a: re::math::point::Point3<()> = mk();
     let b: re::math::vec::Vec3<()> = mk();
     let _ = a + b;
 }
 
-pub fn p1078() {
+pub fn p1117() {
     let a: re::math::point::Point3<re::render::World> = mk();
     let b: re::math::point::Point3<re::render::World> = mk();
     let c: re::math::point::Point3<re::render::World> = mk();
@@ -1253,169 +1394,193 @@ pub fn p1078() {
     let _ = re::math::space::Affine::add(&c, &d);
 }
 
-pub fn p1081() {
+pub fn p1120() {
     let a: re::math::point::Point3<re::render::World> = mk();
     let b: re::math::point::Point3<re::render::World> = mk();
     let _r: re::math::vec::Vec3<re::render::World> = a - b;
 }
 
-pub fn p1083() {
+pub fn p1122() {
     let a: re::math::point::Point3<re::render::World> = mk();
     let b: re::math::point::Point3<re::render::World> = mk();
     let _ = re::math::Lerp::lerp(&a, &b, 0.5);
 }
 
-pub fn p1084() {
+pub fn p1123() {
     let a: re::math::point::Point3<re::render::World> = mk();
     let b: re::math::point::Point3<re::render::World> = mk();
     let _ = a - b;
 }
 
-pub fn p1090() {
+pub fn p1129() {
     let a: re::math::point::Point3<re::render::World> = mk();
     let b: re::math::vec::Vec3<re::render::World> = mk();
     let _ = a + b;
 }
 
-pub fn p1097() {
+pub fn p1136() {
     let a: re::math::vec::Vec2<re::render::Model> = mk();
     let b: re::math::vec::Vec2<re::render::Model> = mk();
     let _ = a + b;
 }
 
-pub fn p1098() {
+pub fn p1137() {
     let a: re::math::vec::Vec2<re::render::Model> = mk();
     let b: re::math::vec::Vec2<re::render::Model> = mk();
     let _ = a.dot(&b);
 }
 
-pub fn p1099() {
+pub fn p1138() {
     let a: re::math::vec::Vec2<re::render::Model> = mk();
     let b: re::math::vec::Vec2<re::render::Model> = mk();
     let _ = re::math::Lerp::lerp(&a, &b, 0.5);
 }
 
-pub fn p1100() {
+pub fn p1139() {
     let a: re::math::vec::Vec2<re::render::Model> = mk();
     let b: re::math::vec::Vec2<re::render::Model> = mk();
     let _ = a - b;
 }
 
-pub fn p1131() {
+pub fn p1170() {
     let a: re::math::vec::Vec2<()> = mk();
     let b: re::math::vec::Vec2<()> = mk();
     let _ = a + b;
 }
 
-pub fn p1132() {
+pub fn p1171() {
     let a: re::math::vec::Vec2<()> = mk();
     let b: re::math::vec::Vec2<()> = mk();
     let _ = a.dot(&b);
 }
 
-pub fn p1133() {
+pub fn p1172() {
     let a: re::math::vec::Vec2<()> = mk();
     let b: re::math::vec::Vec2<()> = mk();
     let _ = re::math::Lerp::lerp(&a, &b, 0.5);
 }
 
-pub fn p1134() {
+pub fn p1173() {
     let a: re::math::vec::Vec2<()> = mk();
     let b: re::math::vec::Vec2<()> = mk();
     let _ = a - b;
 }
 
-pub fn p1165() {
+pub fn p1204() {
     let a: re::math::vec::Vec2<re::render::World> = mk();
     let b: re::math::vec::Vec2<re::render::World> = mk();
     let _ = a + b;
 }
 
-pub fn p1166() {
+pub fn p1205() {
     let a: re::math::vec::Vec2<re::render::World> = mk();
     let b: re::math::vec::Vec2<re::render::World> = mk();
     let _ = a.dot(&b);
 }
 
-pub fn p1167() {
+pub fn p1206() {
     let a: re::math::vec::Vec2<re::render::World> = mk();
     let b: re::math::vec::Vec2<re::render::World> = mk();
     let _ = re::math::Lerp::lerp(&a, &b, 0.5);
 }
 
-pub fn p1168() {
+pub fn p1207() {
     let a: re::math::vec::Vec2<re::render::World> = mk();
     let b: re::math::vec::Vec2<re::render::World> = mk();
     let _ = a - b;
 }
 
-pub fn p1199() {
+pub fn p1238() {
     let a: re::math::vec::Vec3<re::render::Model> = mk();
     let b: re::math::vec::Vec3<re::render::Model> = mk();
     let _ = a + b;
 }
 
-pub fn p1200() {
+pub fn p1239() {
     let a: re::math::vec::Vec3<re::render::Model> = mk();
     let b: re::math::vec::Vec3<re::render::Model> = mk();
     let _ = a.dot(&b);
 }
 
-pub fn p1201() {
+pub fn p1240() {
     let a: re::math::vec::Vec3<re::render::Model> = mk();
     let b: re::math::vec::Vec3<re::render::Model> = mk();
     let _ = re::math::Lerp::lerp(&a, &b, 0.5);
 }
 
-pub fn p1202() {
+pub fn p1241() {
     let a: re::math::vec::Vec3<re::render::Model> = mk();
     let b: re::math::vec::Vec3<re::render::Model> = mk();
     let _ = a - b;
 }
 
-pub fn p1234() {
+pub fn p1273() {
     let a: re::math::vec::Vec3<()> = mk();
     let b: re::math::vec::Vec3<()> = mk();
     let _ = a + b;
 }
 
-pub fn p1235() {
+pub fn p1274() {
     let a: re::math::vec::Vec3<()> = mk();
     let b: re::math::vec::Vec3<()> = mk();
     let _ = a.dot(&b);
 }
 
-pub fn p1236() {
+pub fn p1275() {
     let a: re::math::vec::Vec3<()> = mk();
     let b: re::math::vec::Vec3<()> = mk();
     let _ = re::math::Lerp::lerp(&a, &b, 0.5);
 }
 
-pub fn p1237() {
+pub fn p1276() {
     let a: re::math::vec::Vec3<()> = mk();
     let b: re::math::vec::Vec3<()> = mk();
     let _ = a - b;
 }
 
-pub fn p1268() {
+pub fn p1281() {
+    let a: re::math::vec::Vec3<crate::UserTag> = mk();
+    let b: re::math::vec::Vec3<crate::UserTag> = mk();
+    let _ = a + b;
+}
+
+pub fn p1282() {
+    let a: re::math::vec::Vec3<crate::UserTag> = mk();
+    let b: re::math::vec::Vec3<crate::UserTag> = mk();
+    let _ = a.dot(&b);
+}
+
+pub fn p1283() {
+    let a: re::math::vec::Vec3<crate::UserTag> = mk();
+    let b: re::math::vec::Vec3<crate::UserTag> = mk();
+    let _ = re::math::Lerp::lerp(&a, &b, 0.5);
+}
+
+pub fn p1284() {
+    let a: re::math::vec::Vec3<crate::UserTag> = mk();
+    let b: re::math::vec::Vec3<crate::UserTag> = mk();
+    let _ = a - b;
+}
+
+pub fn p1319() {
     let a: re::math::vec::Vec3<re::render::World> = mk();
     let b: re::math::vec::Vec3<re::render::World> = mk();
     let _ = a + b;
 }
 
-pub fn p1269() {
+pub fn p1320() {
     let a: re::math::vec::Vec3<re::render::World> = mk();
     let b: re::math::vec::Vec3<re::render::World> = mk();
     let _ = a.dot(&b);
 }
 
-pub fn p1270() {
+pub fn p1321() {
     let a: re::math::vec::Vec3<re::render::World> = mk();
     let b: re::math::vec::Vec3<re::render::World> = mk();
     let _ = re::math::Lerp::lerp(&a, &b, 0.5);
 }
 
-pub fn p1271() {
+pub fn p1322() {
     let a: re::math::vec::Vec3<re::render::World> = mk();
     let b: re::math::vec::Vec3<re::render::World> = mk();
     let _ = a - b;
